@@ -1,6 +1,7 @@
 //! Model executors: the expected response of a request according to the reference model.
 //! `None` = this op has no model (differential-only).
 use crate::req::{Req, Resp};
+pub mod field;
 pub mod scalar;
 
 pub fn exec(req: &Req) -> Option<Resp> {
@@ -8,11 +9,17 @@ pub fn exec(req: &Req) -> Option<Resp> {
     if op.starts_with("sc.") {
         return scalar::exec(op, &req.a);
     }
+    if op.starts_with("fe.") {
+        return field::exec(op, &req.a);
+    }
     None
 }
 
 /// The standard model oracle.
 pub fn oracle(req: &Req, got: &Resp) -> Result<(), String> {
+    if req.op.starts_with("fe.") {
+        return field::oracle(req, got);
+    }
     match exec(req) {
         None => Err(format!("no model for op {}", req.op)),
         Some(want) => {
